@@ -800,6 +800,9 @@ impl<RW: QueueRW<T>, T> Stream for &FutInnerRecv<RW, T> {
                 Err((_, TryRecvError::Disconnected)) => return Ok(Async::Ready(None)),
                 Err((pt, _)) => {
                     if unsafe { self.wait.fut_wait(count, &*pt, &self.reader.queue.writers) } {
+                        // A failed attempt may have pinned a slot for a while: a producer that
+                        // was refused because of that pin has to be told that it is gone
+                        self.prod_wait.notify_all();
                         return Ok(Async::NotReady);
                     }
                 }
